@@ -10,7 +10,13 @@ Translated on every run, statement by statement, into the deep embedding of `lea
                             `createColumn`, `createReferenceConstraint`, `joinSQLType`;
   * sqlobject/styles.py   — the three style classes (all methods but `__init__`) and the module functions
                             `mixedToUnder`, `mixedToUnderSub`, `capword`, `lowerword`, `underToMixed`;
-  * sqlobject/main.py     — `SQLObject._getJoinsToCreate`, `SQLObject.createJoinTablesSQL`.
+  * sqlobject/main.py     — `SQLObject._getJoinsToCreate`, `createJoinTablesSQL`, and (world-threading reading,
+                            `Model/PyDdlW.lean`) `createTable`, `dropTable`, `createJoinTables`, `dropJoinTables`,
+                            `createIndexes`; with the connection classes' `createTable`, `dropTable`,
+                            `_SO_createJoinTable`, `_SO_dropJoinTable`, `_SO_createIndex`, `createIndexSQL`, `addColumn`,
+                            `delColumn`, `recreateTableWithoutColumn`;
+  * sqlobject/index.py    — `SODatabaseIndex.<dialect>CreateIndexSQL` (the aliases `x = y = sqliteCreateIndexSQL` bind
+                            the same function in the class table).
 Anything outside the fragment raises ExtractError.  Conventions:
   * classes, method names and functions are numbered (`C_<class>`, `M_<name>`, `F_<name>`); the class table lists for
     every class its linearised bases (single inheritance is checked) and its OWN definitions — which definition a
@@ -27,6 +33,11 @@ Anything outside the fragment raises ExtractError.  Conventions:
   * `fmt % a` needs a literal format string, split here into pieces (text, %s, %i/%d, %(key)s, %%);
   * `max(map(self.m, xs))` is translated as `max([self.m(v) for v in xs])`;
   * `raise E(msg)` / `assert c, msg`: the message is not evaluated;
+  * a call named in EFFECT_NAMES (`query`, `send`, the stateful methods) must be the WHOLE expression of an expression
+    statement, an assignment or a return; a call named in READ_NAMES (`tableExists`) may only occur in the test of an
+    `if`, under `and` / `or` / `not`; keyword arguments of a program method are put in the order of its signature (all
+    definitions of a method name must agree on it; skipped parameters need constant defaults), keyword arguments of
+    any other method are appended to the positional ones; `x.extend(e)` on a local is `x = x + e`;
   * `RE.sub(f, s)` needs `RE = re.compile(<literal>)` at module level with one of the two patterns of styles.py.
 """
 import ast
@@ -55,10 +66,20 @@ CONN_CLASSES = [
     ('sqlobject/maxdb/maxdbconnection.py', 'MaxdbConnection'),
 ]
 CONN_METHODS = ['createTableSQL', 'createColumns', 'createReferenceConstraints', '_SO_createJoinTableSQL',
-                'createIDColumn', '_createIDColumn', 'createColumn', 'createReferenceConstraint', 'joinSQLType']
+                'createIDColumn', '_createIDColumn', 'createColumn', 'createReferenceConstraint', 'joinSQLType',
+                'createIndexSQL', 'createTable', 'dropTable', '_SO_createJoinTable', '_SO_dropJoinTable',
+                '_SO_createIndex', 'addColumn', 'delColumn', 'recreateTableWithoutColumn']
+INDEX_METHODS = ['sqliteCreateIndexSQL', 'mysqlCreateIndexSQL', 'postgresCreateIndexSQL', 'maxdbCreateIndexSQL',
+                 'mssqlCreateIndexSQL', 'sybaseCreateIndexSQL', 'firebirdCreateIndexSQL']
 STYLE_CLASSES = ['Style', 'MixedCaseUnderscoreStyle', 'MixedCaseStyle']
 STYLE_FUNCS = ['mixedToUnder', 'mixedToUnderSub', 'capword', 'lowerword', 'underToMixed']
-MAIN_METHODS = ['_getJoinsToCreate', 'createJoinTablesSQL']
+MAIN_METHODS = ['_getJoinsToCreate', 'createJoinTablesSQL', 'createTable', 'dropTable', 'createJoinTables',
+                'dropJoinTables', 'createIndexes']
+# world-threading reading (Model/PyDdlW.lean): calls with an effect / reads of the world
+EFFECT_NAMES = ('query', 'send', 'createTable', 'dropTable', 'createJoinTables', 'dropJoinTables', 'createIndexes',
+                '_SO_createJoinTable', '_SO_dropJoinTable', '_SO_createIndex', 'addColumn', 'delColumn',
+                'recreateTableWithoutColumn')
+READ_NAMES = ('tableExists',)
 
 STR_BUILTINS = ('join', 'startswith', 'endswith', 'lower', 'upper', 'split', 'group')
 EXT_FUNCS = {'findClass': 'findClass'}
@@ -160,7 +181,29 @@ class Fn(object):
         self.loops = []
         body = strip_doc(fn.body)
         self.body_nodes = body
+        self._check_effect_positions(body)
         self.stmts = [(self.stmt(s, top=(k == 0)), s) for k, s in enumerate(body)]
+
+    def _check_effect_positions(self, body):
+        mod = ast.Module(body=body, type_ignores=[])
+        parents = {}
+        for x in ast.walk(mod):
+            for c in ast.iter_child_nodes(x):
+                parents[c] = x
+        for x in ast.walk(mod):
+            if isinstance(x, ast.Call) and isinstance(x.func, ast.Attribute):
+                p = parents[x]
+                if x.func.attr in EFFECT_NAMES:
+                    ok = (isinstance(p, ast.Expr) or (isinstance(p, ast.Assign) and p.value is x)
+                          or (isinstance(p, ast.Return) and p.value is x))
+                    if not ok:
+                        self.fail('the effectful call is not the whole expression of a statement', x)
+                if x.func.attr in READ_NAMES:
+                    q, child = p, x
+                    while isinstance(q, (ast.BoolOp, ast.UnaryOp)) and (not isinstance(q, ast.UnaryOp) or isinstance(q.op, ast.Not)):
+                        child, q = q, parents[q]
+                    if not (isinstance(q, ast.If) and q.test is child):
+                        self.fail('a read of the world outside the test of an if', x)
 
     def fail(self, what, n=None):
         raise ExtractError('%s: %s%s' % (self.where, what,
@@ -244,6 +287,8 @@ class Fn(object):
             if c:
                 return '(.cls %s)' % m.W.C(c)
             if isinstance(n.value, ast.Name) and not m.is_local(n.value.id):
+                if n.value.id == 'events' and 'events' in m.mod['modules']:
+                    return '(.glob %s)' % lean_str('events.' + n.attr)
                 m.fail('module constant outside the fragment', n)
             return '(.attr %s %s)' % (m.expr(n.value), lean_str(n.attr))
         if isinstance(n, ast.Tuple):
@@ -334,6 +379,10 @@ class Fn(object):
         f = n.func
         if any(isinstance(a, ast.Starred) for a in n.args) or any(k.arg is None for k in n.keywords):
             m.fail('star arguments', n)
+        if isinstance(f, ast.Name) and m.is_local(f.id):
+            if n.keywords:
+                m.fail('keyword arguments of a call of a value', n)
+            return '(.callVal %s %s)' % (m.expr(f), m.exprs(n.args))
         if isinstance(f, ast.Name) and not m.is_local(f.id):
             if n.keywords:
                 m.fail('keyword arguments', n)
@@ -412,11 +461,31 @@ class Fn(object):
                         m.fail('keyword arguments', n)
                     return '(.ext "sqlbuilder.sqlrepr" %s)' % m.exprs(n.args)
                 m.fail('call through an unknown module name', n)
-            if n.keywords:
-                m.fail('keyword arguments of a method call', n)
             if name in STR_BUILTINS or name not in W.methnames:
-                return '(.bmeth %s %s %s)' % (m.expr(recv), lean_str(name), m.exprs(n.args))
-            return '(.mcall %s %s %s)' % (m.expr(recv), W.M(name), m.exprs(n.args))
+                # a method that is not a method of the program: keyword values follow the positional ones
+                return '(.bmeth %s %s %s)' % (m.expr(recv), lean_str(name),
+                                              m.exprs(list(n.args) + [k.value for k in n.keywords]))
+            args = list(n.args)
+            if n.keywords:
+                sigs = W.sigs_full.get(name, set())
+                if len(sigs) != 1:
+                    m.fail('keyword arguments of a method whose definitions disagree on the signature', n)
+                params, ndef = list(sigs)[0]
+                kw = {k.arg: k.value for k in n.keywords}
+                rest = list(params[len(args):])
+                for k in kw:
+                    if k not in rest:
+                        m.fail('unknown / repeated keyword %s' % k, n)
+                last = max(rest.index(k) for k in kw)
+                for i, pn in enumerate(rest[:last + 1]):
+                    if pn in kw:
+                        args.append(kw[pn])
+                    else:
+                        d = W.sig_defaults[name][len(n.args) + i]
+                        if d is None:
+                            m.fail('parameter %s skipped without a default' % pn, n)
+                        args.append(d)
+            return '(.mcall %s %s %s)' % (m.expr(recv), W.M(name), m.exprs(args))
         m.fail('call outside the fragment', n)
 
     # ---- statements
@@ -440,6 +509,9 @@ class Fn(object):
                 if not ok:
                     m.fail('attribute assignment outside the fragment', n)
                 return '(.setAttr 0 %s %s)' % (lean_str(t.attr), m.expr(n.value))
+            if isinstance(t, ast.Tuple) and all(isinstance(e, ast.Name) for e in t.elts):
+                e = m.expr(n.value)
+                return '(.assignTup [%s] %s)' % (', '.join(str(m.bind(x.id)) for x in t.elts), e)
             if not isinstance(t, ast.Name):
                 m.fail('assignment target outside the fragment', n)
             e = m.expr(n.value)
@@ -488,6 +560,11 @@ class Fn(object):
                     and isinstance(v.func.value, ast.Name) and m.is_local(v.func.value.id) \
                     and len(v.args) == 1 and not v.keywords and v.func.value.id not in m.params:
                 return '(.append %d %s)' % (m.scope[v.func.value.id], m.expr(v.args[0]))
+            if isinstance(v, ast.Call) and isinstance(v.func, ast.Attribute) and v.func.attr == 'extend' \
+                    and isinstance(v.func.value, ast.Name) and m.is_local(v.func.value.id) \
+                    and len(v.args) == 1 and not v.keywords and v.func.value.id not in m.params:
+                x = m.scope[v.func.value.id]
+                return '(.assign %d (.add (.var %d) %s))' % (x, x, m.expr(v.args[0]))
             return '(.expr %s)' % m.expr(v)
         if isinstance(n, ast.Continue):
             return '.continue'
@@ -508,7 +585,7 @@ def module_info(tree, rel, W):
         if isinstance(st, ast.ImportFrom):
             for a in st.names:
                 nm = a.asname or a.name
-                if nm in ('col', 'sqlbuilder') and a.name == nm and (st.module in (None, 'sqlobject') or st.level > 0):
+                if nm in ('col', 'sqlbuilder', 'events') and a.name == nm and (st.module in (None, 'sqlobject') or st.level > 0):
                     info['modules'].add(nm)
                 elif nm in EXT_FUNCS and a.name == nm:
                     info['imported'].add(nm)
@@ -566,6 +643,7 @@ def extract(repo):
     for c in STYLE_CLASSES:
         plan.append(('sqlobject/styles.py', c, None, 'method'))
     plan.append(('sqlobject/main.py', 'SQLObject', MAIN_METHODS, 'classmethod'))
+    plan.append(('sqlobject/index.py', 'SODatabaseIndex', INDEX_METHODS, 'method'))
     W.classes = [c for _, c, _, _ in plan]
     W.funcs = list(STYLE_FUNCS)
 
@@ -588,6 +666,8 @@ def extract(repo):
         b = single_bases(st_tree, c, set(STYLE_CLASSES)) if c != 'Style' else None
         W.mro[c] = [c] + (W.mro[b] if b else [])
     W.mro['SQLObject'] = ['SQLObject']
+    W.mro['SODatabaseIndex'] = ['SODatabaseIndex']
+    aliases = []   # (class, alias name, name of the def it binds)
 
     todo = []      # (rel, class, FunctionDef, kind)
     consts = []
@@ -597,10 +677,17 @@ def extract(repo):
             if isinstance(st, ast.FunctionDef):
                 if (wanted is None and st.name != '__init__') or (wanted is not None and st.name in wanted):
                     todo.append((rel, c, st, kind))
+            elif isinstance(st, ast.Assign) and all(isinstance(t, ast.Name) for t in st.targets) \
+                    and wanted is not None and any(t.id in wanted for t in st.targets):
+                # `a = b = f`: the names bind the function `f` defined in this class
+                if not (isinstance(st.value, ast.Name) and any(isinstance(x, ast.FunctionDef) and x.name == st.value.id
+                                                                for x in k.body)):
+                    raise ExtractError('%s: alias assignment outside the fragment: %s' % (c, ast.unparse(st)[:80]))
+                for t in st.targets:
+                    if t.id in wanted:
+                        aliases.append((c, t.id, st.value.id))
             elif isinstance(st, ast.Assign) and len(st.targets) == 1 and isinstance(st.targets[0], ast.Name):
                 nm = st.targets[0].id
-                if wanted is not None and nm in wanted:
-                    raise ExtractError('%s.%s is bound by an assignment (alias), not a def' % (c, nm))
                 if c == 'SOKeyCol' and nm == 'key_type':
                     consts.append((c, nm, st.value))
     for rel, c, wanted, kind in plan:
@@ -609,7 +696,14 @@ def extract(repo):
             for w in wanted:
                 if w not in have:
                     raise ExtractError('SQLObject.%s not found' % w)
-    W.methnames = sorted({t[2].name for t in todo})
+    W.methnames = sorted({t[2].name for t in todo} | set(INDEX_METHODS))
+    W.sigs_full, W.sig_defaults = {}, {}
+    for rel, c, node, kind in todo:
+        ps = tuple(a.arg for a in node.args.args[1:])
+        nd = len(node.args.defaults)
+        W.sigs_full.setdefault(node.name, set()).add((ps, nd))
+        defs = [None] * (len(ps) - nd) + list(node.args.defaults)
+        W.sig_defaults[node.name] = defs
 
     out.append('/-! ### numbering -/')
     for i, c in enumerate(W.classes):
@@ -653,6 +747,12 @@ def extract(repo):
         W.own[(c, node.name)] = lean
         W.sigs.setdefault(node.name, set()).add(tuple(f.params[1:]))
         emit(f, '%s.%s' % (c, node.name))
+    for c, alias, target in aliases:
+        if (c, target) not in W.own:
+            raise ExtractError('%s.%s is an alias of %s, which is not translated' % (c, alias, target))
+        if (c, alias) in W.own:
+            raise ExtractError('%s.%s is bound twice' % (c, alias))
+        W.own[(c, alias)] = W.own[(c, target)]
     for fname in W.funcs:
         node = find_func(st_tree, fname)
         lean = 'fn_%s' % ident(fname)
@@ -672,6 +772,9 @@ def extract(repo):
                 raise ExtractError('%s.%s: entry outside the fragment' % (c, nm))
         const_terms.append('((%s, %s), .dict [%s])' % (W.C(c), lean_str(nm), ', '.join(items)))
 
+    out.append('/-- the program methods with an effect on the world (statement-level calls of them thread the world) -/')
+    out.append('def effMeths : List Nat := [%s]' % ', '.join(W.M(x) for x in W.methnames if x in EFFECT_NAMES))
+    out.append('')
     out.append('/-! ### the program -/')
     out.append('def prog : Prog where')
     out.append('  mro := [%s]' % ',\n    '.join('(%s, [%s])' % (W.C(c), ', '.join(W.C(b) for b in W.mro[c])) for c in W.classes))
